@@ -4,6 +4,7 @@ C16  Total nanoseconds <-> (seconds, nanoseconds) conversion is exact and floor-
 import TzVerif.Model.TimeZone
 import TzVerif.Spec.Calendar
 import TzVerif.Proofs.SrcEqZone
+import TzVerif.Generated.StableC16   -- per run: the current translation (SrcNow) equals the baseline (Src) these theorems are about
 
 namespace TzVerif.C16
 open TzVerif.Model TzVerif.Gen
